@@ -119,10 +119,100 @@ def c12(c):
                       'a panic of the queue/writer is reported as a violation: the model prescribes a normal return with specific items']
 
 
+# ------------------------------------------------------------------------------------------------ C40
+def c40(c):
+    quick = c.tier == 'quick'
+    if not _FAST:
+        r = c.tlc_exhaustive('Dissolve', 'Dissolve', 'quick.cfg' if quick else 'thorough.cfg', workers=8, timeout=1500)
+        c.log('Dissolve safety: %d distinct / %d generated states' % (r['distinct'], r['states']))
+        # liveness under fairness (no VIEW, no state constraint): Submitted ~> Succeeded \/ closed; workers exit after Close
+        r = c.tlc_exhaustive('Dissolve', 'Dissolve', 'live.cfg' if quick else 'live_thorough.cfg', workers=8, timeout=2400)
+        c.log('Dissolve liveness (FairSpec): %d distinct states' % r['distinct'])
+    binp = c.go_build('writer')
+    nruns = 1500 if quick else 12000
+    ntr = 120 if quick else 800
+    dr = c.harness(binp, 'dissolve', {'n': nruns, 'traces': ntr}, timeout=900)
+    c.absorb(dr)
+    c.cov['evaluations'] += dr['executed']
+    c.cov['distinct_nontrivial'] += dr['nontrivial']
+    c.cov['dissolve_runs'] = {'runs': dr['executed'], 'clean': dr['completed'], 'counters': dr['counters'], 'nontrivial': dr['nontrivial']}
+    traces = dr['extra']['traces']
+    scen = dr['extra']['trace_scenarios']
+
+    def rejected(i, t, k, info):
+        ev = t[k] if k < len(t) else None
+        if 'violated' in (info.get('error') or ''):
+            what = 'recorded execution of the dissolver violates %s at event %d: %s' % (info['error'], k, ev)
+        else:
+            what = ('recorded execution of the dissolver is not a behaviour of spec/Dissolve: event %d %s cannot follow the matched prefix '
+                    '(scenario %s)' % (k, json.dumps(ev), json.dumps(scen[i])))
+        c.violation('trace:%s' % (ev.get('ev') if ev else '?'), what, {'scenario': scen[i], 'trace': t, 'matched_prefix': k})
+
+    acc = _validate_traces(c, 'Dissolve', 'DissolveTrace', 'trace.cfg', traces, rejected)
+    c.log('DissolveTrace: %d of %d recorded traces accepted' % (acc, len(traces)))
+    c.cov['traces_validated_against_impl'] += acc
+    c.cov['trace_events'] = sum(len(t) for t in traces)
+    c.cov['samples'] += dr['samples'][:1]
+    c.cov['rule'] = ('seeded random scenarios (1-3 workers, 1-6 jobs failing 0-3 times, run durations, submits before/after Run, Close early or after quiescence, '
+                     'Submit after Close); jobs log their own start/end; observable monitor on every run + bounded-time quiescence for the liveness clause; first N traces '
+                     'validated by TLC against DissolveTrace; non-trivial = >1 worker, >1 job and at least one failed run, distinct by trace')
+    c.assumptions += ['"runs until success" is demanded while the dissolver is open: Close discards queued jobs by design (documented in dissolve.go); StrongLiveness in Dissolve.tla states the absolute reading, TLC refutes it (strong.cfg)',
+                      '"no job executed after close": a job a worker had dequeued before Close may still start (at most one per worker); no dequeue and no re-queue after Close',
+                      'each job is submitted once; jobs fail a finite number of times',
+                      'liveness on the real code is a bounded-time check (5 s; typical completion < 5 ms)']
+
+
+# ------------------------------------------------------------------------------------------------ C42
+def c42(c):
+    quick = c.tier == 'quick'
+    if not _FAST:
+        r = c.tlc_exhaustive('Pools', 'Pools', 'quick.cfg' if quick else 'thorough.cfg', workers=8, timeout=1500)
+        c.log('Pools (write/append/foreign/put): %d distinct / %d generated states' % (r['distinct'], r['states']))
+        if not quick:
+            r = c.tlc_exhaustive('Pools', 'Pools', 'reslice_bs.cfg', workers=8, timeout=1500)
+            c.log('Pools bytes+slices with reslicing: %d distinct states' % r['distinct'])
+        # model-level finding (rule 1): with reslicing before Put the item-buffer model violates GetOK; whether the real
+        # code does is decided below by the replay (scripts with Reslice)
+        r = c.tlc('Pools', 'Pools', 'reslice_items.cfg', workers=4, timeout=600, expect_violation=True)
+        c.cov['model_counterexample_items_reslice'] = bool(r['error'] and 'GetOK' in r['error'])
+        c.log('Pools items with reslicing: model %s' % ('violates GetOK (counterexample: Get, Write, Reslice shorter, Put, Get)' if c.cov['model_counterexample_items_reslice'] else 'holds'))
+    binp = c.go_build('writer')
+    # size-class transcription vs the three real implementations
+    t = c.tlc_exhaustive('Pools', 'PoolsTable', 'table.cfg', dump=True, workers=2, timeout=300)
+    rows = [{k: st[k] for k in ('tk', 'tv', 'tnext', 'tprev')} for st in c.dump_states(t)]
+    tr = c.harness(binp, 'classes', rows)
+    c.absorb(tr)
+    c.cov['evaluations'] += tr['executed']
+    c.cov['class_table_rows'] = tr['executed']
+    # scripts
+    nb = 300 if quick else 3000
+    s = c.tlc('Pools', 'PoolsSim', 'sim.cfg', simulate=nb, depth=40, timeout=900)
+    if not s['ok']:
+        raise vf.Inconclusive('PoolsSim simulation failed: %s' % s['out'][-2000:])
+    behs = [[{'kind': st['kind'], 'step': st['step']} for st in b] for b in c.behaviours(s)]
+    res = c.harness(binp, 'pools', behs, timeout=600)
+    c.absorb(res)
+    c.cov['traces_validated_against_impl'] += res['completed']
+    c.cov['evaluations'] += res['counters'].get('pool_ops', 0)
+    c.cov['distinct_nontrivial'] += res['nontrivial']
+    c.cov['samples'] += res['samples'][:2]
+    c.cov['pool_replay'] = {'scripts': res['executed'], 'clean': res['completed'], 'counters': res['counters']}
+    hits = sum(v for k, v in res['counters'].items() if k.startswith('pool_hits_'))
+    if hits == 0:
+        c.drifts.append({'what': 'pools replay: no Get was served from a pool (sync.Pool dropped everything): the binding is vacuous'})
+    c.cov['rule'] = ('TLC -simulate of PoolsSim (Get/Write/Append/Reslice/Foreign/Put with lengths around powers of two up to above the largest class), replayed into '
+                     'GetByteBuffer/PutByteBuffer, GetByteSlicesBuf/PutByteSlicesBuf, getItemBuf/putItemBuf on one locked OS thread with GC off; after every Get: '
+                     'cap >= n, len = 0 (items: len = n and all visible entries zero); pool hits counted by pointer identity; non-trivial = script with >= 2 Puts, distinct by ops')
+    c.assumptions += ['lengths >= 0 (GetByteBuffer of a negative length is outside the statement)',
+                      'users do not keep using a buffer after Put (aliasing after Put is outside the statement)',
+                      'sync.Pool modelled as a bag that may lose or withhold anything; the replay cannot force a drop, it counts the hits it got']
+
+
 # ------------------------------------------------------------------------------------------------ registry
-CHECKS = {'C12': c12}
+CHECKS = {'C12': c12, 'C40': c40, 'C42': c42}
 
 META = {
-    'C12': dict(level='model_checking',
-                text='placeholder', note='placeholder', technique='placeholder'),
+    'C12': dict(level='model_checking', text='placeholder', note='placeholder', technique='placeholder'),
+    'C40': dict(level='model_checking', text='placeholder', note='placeholder', technique='placeholder'),
+    'C42': dict(level='model_checking', text='placeholder', note='placeholder', technique='placeholder'),
 }
